@@ -33,6 +33,15 @@ def get_case(cs):
                      cs.get("fixed", False))
         c.prepare()
         c.cid = cid
+        import os
+        kd_ = os.path.join(CTX["root"], "kernels")
+        os.makedirs(kd_, exist_ok=True)
+        c.path = os.path.join(kd_, cid + ".s")
+        if not os.path.exists(c.path):
+            tmp = c.path + ".%d.tmp" % os.getpid()
+            with open(tmp, "w") as f:
+                f.write(cs["text"])
+            os.replace(tmp, c.path)
         c.ref_cap = cs.get("ref_cap", REF_CAP)
         CTX["cases"][cid] = c
     return c
@@ -58,6 +67,14 @@ def get_ref(case):
         ref["tractable"] = False
         ref["lines"] = res.lines
         ref["error"] = repr(res.parent_exc) if res.parent_exc else None
+    if ref["tractable"]:
+        # the same reference through the CLI entry point (other "Analyzed file" line)
+        rc = lcd.run_analysis(case, 1, -1, Chooser(seed=0), threshold=10 ** 9,
+                              max_steps=getattr(case, "ref_cap", REF_CAP), parent_cost=0.0, via_cli=True)
+        if rc.out is not None and not rc.aborted:
+            ref["text_cli"] = rc.out["text"]
+            if rc.out["lcd"] != ref["lcd"]:
+                raise core.HarnessError("CLI-path reference differs from API-path reference for %s" % case.name)
     # stub run
     sres = run_stub(case)
     ref["stub"] = sres
@@ -87,6 +104,7 @@ def non_lcd_rows(text):
     if "Combined Analysis Report" not in text:
         return None
     head, rest = text.split("Combined Analysis Report", 1)
+    head = "\n".join(l for l in head.split("\n") if not l.startswith("Analyzed file:"))
     rows = []
     for l in rest.split("\n"):
         if "||" not in l:
@@ -112,7 +130,7 @@ def execute(spec, chooser):
         case, spec["workers"], timeout, chooser, threshold=spec.get("threshold"),
         max_steps=spec.get("max_steps", RUN_CAP), deadline_slack=slack,
         speeds=spec.get("speeds"), start_delays=spec.get("delays"),
-        parent_cost=spec.get("parent_cost"), rtt=spec.get("rtt"))
+        parent_cost=spec.get("parent_cost"), rtt=spec.get("rtt"), via_cli=spec.get("via_cli", False))
     return res
 
 
